@@ -1,7 +1,8 @@
 (* Props/C13b.v -- add_constraint_and_split, the executable model (task M8).
    Tri/AddSplit.v + Tri/AddSplitFloat.v model the whole function: the Split conflict resolver (floating-point line intersection in IEEE
    arithmetic, operation for operation; NumCast; mitigate_underflow; vertex constructor), get_conflict_resolutions with
-   verify_split_position / all_regions_intact, resolve_conflict_groups with ConstraintEdgeSplit regions, and the fallback routine.  The model
+   verify_split_position / all_regions_intact, resolve_conflict_groups with ConstraintEdgeSplit regions (ending with legalize_vertex of every
+   split vertex and then the full legalization of every edge that starts at a split vertex), and the fallback routine.  The model
    is compared index-exactly with the implementation on every `split` operation (Check/RunModel.v check_split_model, tag corr).
    Proved here for the model, for every input (no well-formedness hypothesis):
      * when the addition without splitting is not refused -- no constraint edge is crossed -- the split model has exactly one outcome,
